@@ -57,6 +57,8 @@ def run(ctx):
     for ks in (["甲", "乙", "丙", "甲"], ["a", "b", "a", "c", "b"], ["x", "x"], ["k1", "k2", "k3", "k4", "k5", "k1", "k3"]):
         lit = "【" + "，".join("“%s” = %d" % (k, i + 1) for i, k in enumerate(ks)) + "】"
         others.append(("literal-repeated-key", "导入《@JSON》\n令甲 = %s\n（显示：甲、甲之所有索引、甲之所有值、（生成JSON：甲））\n以键、值遍历甲：\n    （显示：键、值）\n0\n" % lit))
+    others.append(("library-imported-twice", "导入《@JSON》\n导入《@文件》\n导入《@JSON》\n导入《@文件》\n（显示：（生成JSON：【“a” = 1】））\n0\n"))
+    others.append(("library-imported-twice-then-error", "导入《@JSON》\n导入《@JSON》\n（解析JSON：“{”）\n"))
     for tag, src in others:
         cases.append(dict(id=len(cases), src=src, n=N * 4)); meta.append((tag, None))
     res = common.run_harness(ctx, znh, "repeat", cases, timeout=2500, args=["-t", "120"])
